@@ -517,7 +517,7 @@ def check(tier: str, replay: Optional[str] = None) -> int:
     if not replay:
         for k in ("renames", "attr_edits", "dop_edits", "changed_expected", "metrics_rows", "inherited_counted", "comparams_counted", "printed_names", "cli_runs"):
             if not stats.get(k):
-                raise tlc.MachineryError(f"vacuity: {k} = 0 in {stats}")
+                v.vacuous(f"vacuity: {k} = 0 in {stats}")
     cov = {"states": res.distinct + hstates, "transitions": res.generated, "traces_validated_against_impl": stats.get("cases", 0),
            "evaluations": stats.get("comparisons", 0) + stats.get("db_comparisons", 0) + stats.get("metrics_rows", 0) + stats.get("hier_rows", 0),
            "distinct_nontrivial": stats.get("cases", 0),
